@@ -242,6 +242,6 @@ pub fn run(o: &Opts) -> Report {
     add(&mut rep, "OpTruthNew0".into(), truth_out(&Truth::new_empty()), "Truth::new_empty()".into());
     add(&mut rep, "OpBudgetNew0".into(), budget_out(&Budget::new_empty()), "Budget::new_empty()".into());
     add(&mut rep, "OpZeroOne".into(), format!("(COk [{}; {}] [])", <f64 as EvidentNumber>::zero().to_bits(), <f64 as EvidentNumber>::one().to_bits()), "EvidentNumber::{zero,one}".into());
-    rep.shards = write_shards(&o.outdir, "C13", "Nv.Run.C13Run", "c13op * cout", "Z_scope", &cases, o.shards, "").unwrap();
+    rep.shards = write_shards(&o.outdir, "C13", "Nv.Run.C13Run", "mismatches", "c13op * cout", "Z_scope", &cases, o.shards, "").unwrap();
     rep
 }
